@@ -48,8 +48,8 @@ claimed = [c for c in sys.argv[1:]] or sorted(checks)
 m = {
  "version": 1,
  "setup_cmd": "bin/check setup",
- "hooks": {"guard": "verif", "enable": "no hooks in /repo: every seam the simulator needs is public API (interceptors, operator constructors, ast.Node implementations); checks build /repo's working tree through a replace directive",
-           "baseline_off_cmd": "cd /repo && GOFLAGS=-mod=mod GOPROXY=off GOSUMDB=off go test -vet=off -count=1 ./...", "source_commits": [], "add_only": True},
+ "hooks": {"guard": "verif", "enable": "go build -tags verif (bin/check always builds the harness and /repo's working tree with it): activates github.com/xjslang/xjs/simhook, whose Point(site) calls in lexer.NextToken, parser.NextToken, CodeWriter.WriteString/WriteRune and Compiler.Compile (begin, before String) become yield points of C14's scheduler; without the tag Point is an empty inlined function. All other seams are public API (interceptors, operator constructors, ast.Node implementations).",
+           "baseline_off_cmd": "cd /repo && GOFLAGS=-mod=mod GOPROXY=off GOSUMDB=off go test -vet=off -count=1 ./...", "source_commits": ["1439e08"], "add_only": True},
  "engines": [
    {"name":"mapsim","path":"sim/engines/mapsim","serves_properties":["C09"],"kind_free_text":"seeded operation histories on the real SourceMapper vs reference model and independent decoder"},
    {"name":"faultsim","path":"sim/engines/faultsim","serves_properties":["C11","C12"],"kind_free_text":"fault injector over stored source text: every token deletion, separator removal, truncation offset; byte corruption"},
